@@ -5,7 +5,7 @@ ID = 'C19'
 LEDGER_FILES = ['a5/core/hex.py']
 MUST_ENTER = [('a5/core/hex.py', 'hex_to_u64'), ('a5/core/hex.py', 'u64_to_hex')]
 RULE = ('n in [0,2^64): every value of each 16-bit lane with the other lanes all-0 / all-1 (exhaustive family), '
-        'single bits, 2^k+-1, ids of every enumerated cell r<=4 and structured deep cells, random 64-bit values; '
+        'single bits, 2^k+-1, ids of every enumerated cell r<=4 and structured deep cells, random 64-bit values, ids built from repeated / exchanged 32- and 16-bit words formatted back to back, a third of all values first parsed from a zero-padded upper-case spelling and formatted afterwards, 6 concurrent threads converting different ids (1 us switch interval); '
         'each n checked for hex_to_u64(u64_to_hex(n))==n, canonical lower-case form, injectivity via a string->n map, '
         'upper-case and zero-padded parsing. distinct = distinct n; non-trivial = n >= 16 (more than one hex digit)')
 ASSUMPTIONS = ['Python int(s,16)/hex() are the trusted primitives the oracle compares against only through the round trip',
@@ -18,6 +18,8 @@ def plan(tier, seed):
     nrand = 60000 if tier == 'quick' else 300000
     specs = [{'part': 'lane', 'lane': l, 'fill': f} for l in range(4) for f in (0, 1)]
     specs.append({'part': 'structured'})
+    specs.append({'part': 'words', 'n': 20000 if tier == 'quick' else 200000})
+    specs.append({'part': 'threads', 'seconds': 4 if tier == 'quick' else 30})
     for i in range(7):
         specs.append({'part': 'random', 'n': nrand})
     return specs
@@ -25,6 +27,15 @@ def plan(tier, seed):
 
 def check(n, ctx, a5, seen):
     ctx.case(n, nontrivial=n >= 16)
+    if n % 3 == 0 and n not in seen.get('_parsed_first', ()):
+        # hostile order: the id is first met as text in a non-canonical spelling (zero padded, upper case), formatted afterwards
+        seen.setdefault('_parsed_first', set()).add(n)
+        try:
+            if a5.hex_to_u64('%016X' % n) != n or a5.hex_to_u64('%016x' % n) != n:
+                ctx.fail('zero_padded_parse', {'n': n}, text='%016X' % n)
+        except Exception as e:
+            ctx.fail('parse_raises', {'n': n}, exc=repr(e))
+        ctx.count('parsed_before_formatted')
     try:
         s = a5.u64_to_hex(n)
         back = a5.hex_to_u64(s)
@@ -41,6 +52,11 @@ def check(n, ctx, a5, seen):
             ctx.fail('collision', {'n': n}, text=s, other=prev)
         if len(seen) < 400000:
             seen[s] = n
+        try:
+            if a5.u64_to_hex(n) != s:
+                ctx.fail('format_depends_on_history', {'n': n}, first=s, again=a5.u64_to_hex(n))
+        except Exception as e:
+            ctx.fail('raises', {'n': n}, exc=repr(e))
         try:
             if a5.hex_to_u64(s.upper()) != n:
                 ctx.fail('upper_case_parse', {'n': n}, text=s.upper())
@@ -78,6 +94,51 @@ def run_shard(spec, ctx):
                     n = (top6 << 58) | (S << shift) | (1 << (shift - 1))
                     check(n, ctx, a5, seen)
                     ctx.count('deep_id_shapes')
+    elif part == 'words':
+        # ids built from repeated / exchanged 32-bit and 16-bit words, formatted right after each other
+        for _ in range(spec['n']):
+            W = ctx.rnd.getrandbits(ctx.rnd.choice((4, 12, 20, 27, 28, 32)))
+            x, y = ctx.rnd.getrandbits(32), ctx.rnd.getrandbits(ctx.rnd.choice((8, 28, 32)))
+            for n in ((W << 32) | W, (W << 32) | x, (y << 32) | W, W, W << 32, (W << 48) | (W << 16), ((W & 0xffff) * 0x0001000100010001) & M64):
+                check(n & M64, ctx, a5, seen)
+        ctx.count('word_structured_values', 7 * spec['n'])
+        ctx.sample({'n': n, 'hex': a5.u64_to_hex(n)})
+    elif part == 'threads':
+        # concurrent callers converting DIFFERENT ids: the round trip holds for every n no matter who else is converting
+        import sys
+        import threading
+        import time
+        old = sys.getswitchinterval()
+        sys.setswitchinterval(1e-6)
+        stop = time.time() + spec['seconds']
+        bad = []
+        done = [0] * 6
+
+        def worker(t):
+            import random
+            rnd = random.Random('%s/%s' % (spec['seed'], t))
+            while time.time() < stop:
+                n = rnd.getrandbits(rnd.choice((64, 64, 40, 16)))
+                try:
+                    s = a5.u64_to_hex(n)
+                    if s != '%x' % n or a5.hex_to_u64(s) != n:
+                        if len(bad) < 10:
+                            bad.append((n, s))
+                except Exception as e:
+                    if len(bad) < 10:
+                        bad.append((n, repr(e)))
+                done[t] += 1
+        ts = [threading.Thread(target=worker, args=(t,), daemon=True) for t in range(6)]
+        for t in ts:
+            t.start()
+        for t in ts:
+            t.join(timeout=spec['seconds'] * 10 + 60)
+        sys.setswitchinterval(old)
+        ctx.case(('threads', spec['shard']), n=sum(done))
+        ctx.count('concurrent_conversions', sum(done))
+        for n, s in bad:
+            ctx.fail('wrong_under_concurrent_callers', {'n': n, 'threads': 6}, got=s)
+        ctx.sample({'threads': 6, 'conversions': sum(done)})
     else:
         for _ in range(spec['n']):
             bits = ctx.rnd.choice((64, 64, 64, 48, 32, 17, 8))
